@@ -47,6 +47,15 @@ CLAIMS = {
   "C12": claim("Serve.tla (AcceptedIffAdvertised, RefusedNeverRuns) / TraceServe.tla: " + PIPE,
       "7 methods x HTTP/1.0, 1.1, 2 x 28 content-type strings (all advertised ones, near misses, foreign) x codec sets x 4 kinds: 405 + Allow, 505, 415 + Accept-Post = exactly the advertised set, no user code / interceptor in rejected cases, exactly one run with the right Spec otherwise.",
       "", "6 C12"),
+  "C13": claim("Wire.tla per call + Pools.tla (buffer ownership, verif hooks) / TraceWire.tla, TracePools.tla; race detector as auxiliary monitor",
+      "TLC-generated scenarios of C01/C02/C08/C11 are executed by 64 goroutines on ONE client and ONE handler per configuration with pairwise-distinct payloads (bidi streams with separate sending and receiving goroutines); each call's trace must be what Wire.tla computes for that call alone, foreign or stale bytes project to 'corrupt'; values handed to user code are re-read after the exchange; buffer-pool Get/Put events recorded by the verif hooks (buffers poisoned on Put) must be a behaviour of Pools.tla, also for error-path traffic (undecodable, corrupt, oversize input); the same traffic runs under the race detector.",
+      "Real goroutine schedules are perturbed by load, not enumerated; data races are below the specification's grain and are left to the race detector.", "6 C13"),
+  "C14": claim("Call.tla (TLC: RecvSticky, Quiesce, EveryOpReturns under fairness) / TraceCall.tla with the environment as silent steps",
+      "TLC checks the call design (duplexHTTPCall + transport + handler program) for every client program within the bounds; client programs enumerated as TLC paths (Gen_Call.tla, no application-level circular wait) x handler programs x protocols run against a real loopback HTTP/2 server; each operation under a watchdog; the recorded call / return events must be a behaviour of Call.tla with transport, server and handler inferred as silent steps; afterwards no labelled goroutine may be inside the library and the response body must have been closed; body closing for rejected responses is checked in C06's runs.",
+      "The environment half of Call.tla is a superset model of net/http of the Go toolchain in this sandbox.", "6 C14"),
+  "C15": claim("Call.tla / TraceCall.tla: cancellation and expiry as model actions at every instant",
+      "cancel() and deadline expiry before the call, between any two operations and during a blocked operation (fired 40 ms into it) x client programs x handler programs (incl. a handler that stalls until its context ends and returns the context's error) x protocols over loopback HTTP/2; every operation that fails afterwards must return canceled / deadline_exceeded (a Send may report the stream-closed EOF), never success or another code.",
+      "Known finding (open): cancellation is not noticed while the HTTP/2 request side is open and idle.", "6 C15"),
   "C16": claim("Options.tla (DeclarationOrder, ExactlyOnce) / TraceOptions.tla: " + PIPE,
       "Every option tree (lists of up to 3 / 4 distinct interceptors with nil anywhere, every composition into WithInterceptors groups, groups wrapped in WithOptions / WithClientOptions / WithHandlerOptions, outer group, empty WithInterceptors()) x {client, handler} x {unary, stream} is built with the real constructors, applied twice, and one real call is made; the recorded order of every layer (entry, exit, send, receive) must be the onion Options.tla computes.",
       "", "6 C16"),
